@@ -48,6 +48,18 @@ structure JC (ctx : Ctx) (q : Query) (G : MG Name) (c : List Var) : Prop where
   marg : ∀ S : List Name, (∀ n ∈ S, n ∈ regularNodes G ∨ n ∈ ctx.ign) → ∀ σ,
     ctx.S.Φ (some (popVar q.domain)) [] S σ =
       sumVars ctx.M.card ((regularNodes G).filter (· ∉ S)) (ctx.M.Q (regularNodes G)) σ
+  /-- the children are a set (every constructor of the carried joint goes through `_upgrade_ordering`): together with
+  `plain` their names are pairwise distinct, so the guard of the repaired `Sum.simplify` never fires on the carried joint -/
+  nodup : c.Nodup
+
+/-- plain variables without repetition have pairwise distinct names -/
+theorem names_nodup_of_plain_nodup {c : List Var} (hp : ∀ v ∈ c, v.ivs = [] ∧ v.star = none ∧ v.isIv = false)
+    (hn : c.Nodup) : (c.map (·.name)).Nodup := by
+  refine (List.nodup_map_iff_inj_on hn).2 ?_
+  intro a ha b hb hab
+  obtain ⟨a1, a2, a3⟩ := hp a ha
+  obtain ⟨b1, b2, b3⟩ := hp b hb
+  cases a; cases b; simp_all
 
 /-- every leaf has children of one name only (true of everything built from the conditionals of line 10) -/
 def OneName : Option Var → List Var → List Var → Prop := fun _ c _ => ∀ v ∈ c, ∀ w ∈ c, v.name = w.name
@@ -264,6 +276,8 @@ theorem sumSafe_joint_ne_one (pop : Option Var) (c rs : List Var)
     unfold sumSimplify
     simp only []
     split
+    · intro h; cases h
+    split
     · rename_i hse
       exfalso
       have hsub : subset' ((childDict c).map (·.1)) ((sortVars rs).map (·.name)) = true := by
@@ -366,7 +380,8 @@ theorem sound_line2 {ctx : Ctx} {Mb : Nat} {q q' : Query} {G : MG Name} {anc : L
         obtain ⟨n, hn, rfl⟩ := (mem_plainVars v _).1 hv
         exact jc.cover n (hRV n hn)
       rw [hexpr] at hret goodS ndS denS
-      rcases sumSafe_joint_sub (some pop) c rs (fun v hv => (hrng v hv).1) hsub with h1 | ⟨c', hs, hc'c, hnames⟩
+      rcases sumSafe_joint_sub (some pop) c rs (fun v hv => (hrng v hv).1)
+        (names_nodup_of_plain_nodup jc.plain jc.nodup) hsub with h1 | ⟨c', hs, hc'c, hnames, hc'nd⟩
       · -- impossible: an outcome is a child of the joint that is not summed out
         exfalso
         obtain ⟨y, hy⟩ := List.exists_mem_of_ne_nil _ hq.Yne
@@ -390,7 +405,7 @@ theorem sound_line2 {ctx : Ctx} {Mb : Nat} {q q' : Query} {G : MG Name} {anc : L
           exact List.mem_map.2 ⟨Var.plain n, (mem_plainVars _ _).2 ⟨n, mem_diff'.2 ⟨h1, h2⟩, rfl⟩, rfl⟩
         have jc' : JC ctx q' (G.subgraph (nsort anc)) c' := by
           refine ⟨hdom ▸ jc.okW, fun v hv => hdom ▸ jc.okN v (hv.elim (fun a => Or.inl ((hmem v).1 a).1) Or.inr), ?_, ?_,
-            ?_, hplain', ?_⟩
+            ?_, hplain', ?_, hc'nd⟩
           pick_goal 3
           · intro z hz
             exact (hnames z).2 ⟨jc.ignIn z hz, fun hr => h.ign z hz (hR_notanc z hr).1⟩
